@@ -23,8 +23,8 @@ theorem tail830_ok (b : Buf) (d : Nat) (s : State) (evs : List Ev) : ∀ e ∈ (
            | exact Or.inr (Or.inl ⟨_, _, x, by assumption⟩)
            | exact Or.inr (Or.inr ⟨_, x, by assumption⟩))
 
-theorem rxTtx_ok (lk : Lookup) (s : State) (b : Buf) :
-    ∀ e ∈ (rxTtx lk s b).2, TtxEvOk b (cniStep lk s (ttxCni s.mask b)).2 e := by
+theorem rxTtx_ok (cfg : Cfg) (s : State) (b : Buf) :
+    ∀ e ∈ (rxTtx cfg s b).2, TtxEvOk b (cniStep cfg s (ttxCni s.mask b)).2 e := by
   have nil : ∀ (q : List Ev), ∀ e ∈ (s, ([] : List Ev)).2, TtxEvOk b q e := by intro q e he; cases he
   unfold rxTtx ttxCni
   cases h0 : unham16p (bt b 0) (bt b 1) with
@@ -62,24 +62,24 @@ theorem rxTtx_ok (lk : Lookup) (s : State) (b : Buf) :
               exact tail830_ok b d s []
     · simp only [hp, if_false]; exact nil _
 
-theorem rxTtx_localTime (lk : Lookup) (s : State) (b : Buf) (t east : Int) (h : Ev.localTime t east ∈ (rxTtx lk s b).2) :
+theorem rxTtx_localTime (cfg : Cfg) (s : State) (b : Buf) (t east : Int) (h : Ev.localTime t east ∈ (rxTtx cfg s b).2) :
     decode8301LocalTime b = some (t, east) := by
-  rcases rxTtx_ok lk s b _ h with x | ⟨t', e', x, y⟩ | ⟨p, x, _⟩
-  · have ne : ∀ e ∈ (cniStep lk s (ttxCni s.mask b)).2, Ev.isExtra e = false := by
+  rcases rxTtx_ok cfg s b _ h with x | ⟨t', e', x, y⟩ | ⟨p, x, _⟩
+  · have ne : ∀ e ∈ (cniStep cfg s (ttxCni s.mask b)).2, Ev.isExtra e = false := by
       cases ttxCni s.mask b with
       | none => intro e he; cases he
-      | some p => exact cniRx_no_extra lk p.1 p.2 s
+      | some p => exact cniRx_no_extra cfg p.1 p.2 s
     exact absurd (ne _ x) (by simp [Ev.isExtra])
   · injection x with a b'; rw [a, b']; exact y
   · cases x
 
-theorem rxTtx_progId (lk : Lookup) (s : State) (b : Buf) (p : Pid) (h : Ev.progId p ∈ (rxTtx lk s b).2) :
+theorem rxTtx_progId (cfg : Cfg) (s : State) (b : Buf) (p : Pid) (h : Ev.progId p ∈ (rxTtx cfg s b).2) :
     decode8302Pdc b = some p := by
-  rcases rxTtx_ok lk s b _ h with x | ⟨t', e', x, _⟩ | ⟨p', x, y⟩
-  · have ne : ∀ e ∈ (cniStep lk s (ttxCni s.mask b)).2, Ev.isExtra e = false := by
+  rcases rxTtx_ok cfg s b _ h with x | ⟨t', e', x, _⟩ | ⟨p', x, y⟩
+  · have ne : ∀ e ∈ (cniStep cfg s (ttxCni s.mask b)).2, Ev.isExtra e = false := by
       cases ttxCni s.mask b with
       | none => intro e he; cases he
-      | some p => exact cniRx_no_extra lk p.1 p.2 s
+      | some p => exact cniRx_no_extra cfg p.1 p.2 s
     exact absurd (ne _ x) (by simp [Ev.isExtra])
   · cases x
   · injection x with a; rw [a]; exact y
